@@ -430,7 +430,7 @@ Proof.
   - (* assemble *)
     unfold plan_rows, gql_plan_of. rewrite Hr, Hsk, Hli. cbn [opt_skip opt_limit]. rewrite (opt_sort_ne _ _ Hone). fold keys.
     assert (Hfull : sem_ops st (LReturn (ret_items items) false (LSort keys (where_plan (q_where q) (chain_plan (q_pat q))))) = Ok t')
-      by (cbn [sem_ops]; cbn [sem_ops] in Hsort'; rewrite Hsort'; exact Hret).
+      by (cbn [sem_ops]; cbn [sem_ops] in Hsort'; rewrite Hsort'; cbn [rbind]; rewrite Hret; reflexivity).
     rewrite Hfull, Hout.
     (* the declarative side *)
     unfold answer. rewrite Hr, Hsk, Hli. cbn [rbind spec_skip spec_limit]. f_equal.
@@ -653,7 +653,7 @@ Proof.
   assert (Hg : forall r, List.In r (rows t) -> forallb group_key_ok (map (item_val st (row_env (cols t) r)) keys) = true).
   { intros r Hrin. apply Hgk. rewrite <- He. unfold tbl_envs. apply in_map. exact Hrin. }
   specialize (Hagg Hg). rewrite He in Hagg.
-  unfold plan_rows, gql_plan_of. rewrite Hr. cbn [sem_ops]. rewrite Hs. cbn [rbind].
+  unfold plan_rows, gql_plan_of. rewrite Hr, Hsk, Hli. cbn [opt_skip opt_limit sem_ops]. rewrite Hs. cbn [rbind].
   unfold answer. rewrite Hr, Ho, Hsk, Hli. cbn [spec_order spec_skip spec_limit]. fold (body_envs st q).
   destruct (aggregate_tbl st keys aggs t) as [t'|], (spec_group st keys aggs (body_envs st q)) as [rs|]; cbn [rbind]; try contradiction; [|exact I].
   exact Hagg.
